@@ -30,9 +30,25 @@ Proof. intros (A & B & C & D). split; intros X; [congruence|auto]. Qed.
 (* close(): on an untouched side it ends clean whatever the write does; on an ended side it is the identity *)
 Lemma do_close_spec P hr w s : core_ok P = true -> Inv s -> ended_clean (fst (do_close P hr w s)).
 Proof.
-  intros HP I. unpack HP. unfold do_close. rewrite Ka, Kb, Kc, Kd.
+  intros HP I. unpack HP. unfold do_close, close_tail, set_closed_flag. rewrite Ka, Kb, Kc, Kd.
   destruct (inv_cases s I) as [(Hr & Hh & Hc)|C].
   - rewrite Hc. cbn [andb]. unfold cleanup. cbn. rewrite Hr, Kf. cbn. rewrite andb_false_r. cbn. rewrite Hh. repeat split.
+  - destruct C as (Hc & Hh & Hr & Ho). rewrite Hc. cbn. repeat split; auto.
+Qed.
+(* the peer's close request, and a close() during which it is served: clean afterwards, whichever form the handler has *)
+Lemma handle_close_spec P hr s : core_ok P = true -> Inv s -> closed s = false -> ended_clean (fst (handle_close P hr s)).
+Proof.
+  intros HP I Hc. unpack HP. unfold handle_close. destruct (inv_cases s I) as [(Hr & Hh & _)|C].
+  - rewrite Hr. unfold cleanup. rewrite Hc, Hr, Kf. cbn. rewrite andb_false_r. cbn. rewrite Hh. repeat split.
+  - destruct C as (Hc' & _). congruence.
+Qed.
+Lemma do_close_serving_spec P hr w s : core_ok P = true -> Inv s -> ended_clean (fst (do_close_serving P hr w s)).
+Proof.
+  intros HP I. unpack HP. unfold do_close_serving, close_tail, set_closed_flag, handle_close. rewrite Ka, Kb, Kc, Kd.
+  destruct (inv_cases s I) as [(Hr & Hh & Hc)|C].
+  - rewrite Hc. cbn [andb has_root]. rewrite Hr. unfold cleanup. cbn [closed has_root hooks chan_open]. rewrite ?Hr, ?Kf.
+    destruct (handle_close_guarded P); cbn [negb andb]; rewrite ?andb_false_r; cbn [fst closed has_root hooks chan_open negb andb];
+      rewrite ?Hr, ?Kf, ?Ke; rewrite ?andb_false_r; cbn; rewrite Hh; repeat split.
   - destruct C as (Hc & Hh & Hr & Ho). rewrite Hc. cbn. repeat split; auto.
 Qed.
 Theorem close_idempotent P hr w s : close_checks_closed_first P = true -> closed s = true -> do_close P hr w s = (s, RNone).
@@ -44,11 +60,12 @@ Proof. intros [A B]. split; cbn; [exact A|]. intros X. destruct (B X) as (U & V 
 Lemma step_inv P hr e s : core_ok P = true -> Inv s -> Inv (fst (step P hr e s)).
 Proof.
   intros HP I. unpack HP.
-  destruct e as [w| |c|c]; cbn [step].
+  destruct e as [w| |w|c|c]; cbn [step].
   - apply clean_inv. now apply do_close_spec.
   - destruct (inv_cases s I) as [(Hr & Hh & Hc)|C].
-    + rewrite Hr. unfold cleanup. rewrite Hc, Hr, Kf. cbn. rewrite andb_false_r. cbn. rewrite Hh. apply clean_inv. repeat split.
-    + destruct C as (Hc & Hh & Hr & Ho). rewrite Hr. exact I.
+    + apply clean_inv. now apply handle_close_spec.
+    + destruct C as (Hc & Hh & Hr & Ho). unfold handle_close. rewrite Hr. exact I.
+  - apply clean_inv. now apply do_close_serving_spec.
   - set (s0 := {| closed := closed s; hooks := hooks s; has_root := has_root s; chan_open := false |}).
     assert (I0 : Inv s0) by (apply chan_closed_inv; exact I).
     destruct (serve_read_eof_closes P).
@@ -84,7 +101,7 @@ Qed.
 
 Definition must_end (P : lparams) (e : entry) : bool :=
   match e with
-  | EClose _ | EHandleClose => true
+  | EClose _ | EHandleClose | ECloseServing _ => true
   | EServeReadEof _ => serve_read_eof_closes P
   | EDispatchEof c => serve_dispatch_eof_closes P || (match c with InServeAll => serve_all_finally_closes P | InWait => false end)
   end.
@@ -94,11 +111,12 @@ Theorem ends_clean P hr es e : core_ok P = true -> must_end P e = true -> ended_
 Proof.
   intros HP Hm. set (s := runs P hr es fresh). assert (I : Inv s) by (apply run_inv; [exact HP|exact inv_fresh]).
   unpack HP.
-  destruct e as [w| |c|c]; cbn [step must_end] in *.
+  destruct e as [w| |w|c|c]; cbn [step must_end] in *.
   - now apply do_close_spec.
   - destruct (inv_cases s I) as [(Hr & Hh & Hc)|C].
-    + rewrite Hr. unfold cleanup. rewrite Hc, Hr, Kf. cbn. rewrite andb_false_r. cbn. rewrite Hh. repeat split.
-    + destruct C as (Hc & Hh & Hr & Ho). rewrite Hr. cbn. repeat split; auto.
+    + now apply handle_close_spec.
+    + destruct C as (Hc & Hh & Hr & Ho). unfold handle_close. rewrite Hr. cbn. repeat split; auto.
+  - now apply do_close_serving_spec.
   - rewrite Hm. set (s0 := {| closed := closed s; hooks := hooks s; has_root := has_root s; chan_open := false |}).
     assert (I0 : Inv s0) by (apply chan_closed_inv; exact I).
     destruct (do_close P hr WEof s0) as [s1 r] eqn:E.
@@ -130,7 +148,7 @@ Theorem raising_hook_refuted P w : cleanup_clears_in_finally P = false -> close_
 Proof.
   intros Hf Ka Kb Kc.
   assert (E : do_close P true w fresh = ({| closed := true; hooks := 1; has_root := true; chan_open := false |}, ROther)).
-  { unfold do_close. rewrite Ka, Kb, Kc. cbn. unfold cleanup. cbn. rewrite Hf. cbn. reflexivity. }
+  { unfold do_close, close_tail, set_closed_flag. rewrite Ka, Kb, Kc. cbn. unfold cleanup. cbn. rewrite Hf. cbn. reflexivity. }
   rewrite E. cbn. repeat split. intros w'. unfold do_close. rewrite Ka. reflexivity.
 Qed.
 
@@ -196,4 +214,23 @@ Proof.
       - reflexivity. }
     apply G. }
   rewrite B. destruct (ends_clean P hr (fold_right (fun x acc => match x with RBase e0 => e0 :: acc | _ => acc end) [] es) e HP Hm) as (Hc & _). exact Hc.
+Qed.
+
+(* ---- close() is not atomic: the peer's close request served while close() itself is under way ---- *)
+(* with the guarded handler the closing side comes out clean and close() raises nothing of its own (only what its write or its
+   hook raised); with the raw cleanup as handler the second cleanup of the same close() finds the handler table already gone:
+   AttributeError out of close() on a side where nothing else went wrong *)
+Theorem close_while_serving_quiet P w s : core_ok P = true -> handle_close_guarded P = true -> Inv s -> closed s = false -> w <> WErr ->
+  step P false (ECloseServing w) s = ({| closed := true; hooks := 1; has_root := false; chan_open := false |}, RNone).
+Proof.
+  intros HP Hg I Hc Hw. unpack HP. cbn [step]. unfold do_close_serving, close_tail, set_closed_flag, handle_close. rewrite Ka, Kb, Kc, Kd, Hg, Hc.
+  destruct (inv_cases s I) as [(Hr & Hh & _)|C]; [|destruct C as (X & _); congruence].
+  cbn [andb has_root]. rewrite Hr. unfold cleanup. cbn [closed has_root hooks chan_open negb andb fst]. rewrite ?Hr, ?Kf. cbn. rewrite Hh.
+  destruct (chan_open s), w; try congruence; reflexivity.
+Qed.
+Theorem close_while_serving_refuted P w : core_ok P = true -> handle_close_guarded P = false ->
+  step P false (ECloseServing w) fresh = ({| closed := true; hooks := 1; has_root := false; chan_open := false |}, RAttr).
+Proof.
+  intros HP Hg. unpack HP. cbn [step]. unfold do_close_serving, close_tail, set_closed_flag, handle_close. rewrite Ka, Kb, Kc, Kd, Hg. cbn.
+  unfold cleanup. cbn. rewrite ?Kf, ?Ke. cbn. rewrite ?Kf, ?Ke. reflexivity.
 Qed.
